@@ -27,6 +27,12 @@ def oracle_rows(ctx, t, strat_name, nrows_out):
     N = t["n"]; ap = t["ap"]; lc = ap.low_count_params
     B = 17 * ap.layer_noise_sd + 1
     case = {"table": ES.typed_summary(t), "strategy": strat_name, "N": N, "rows": nrows_out, "gap": lc.low_mean_gap}
+    if t.get("pid_mode") == "explicit-unique" and N < ap.outlier_count.lower + ap.top_count.lower:
+        # explicit ids go through the flattening counters, which by design (C04) produce no count for fewer than outlier.lower + top.lower entities:
+        # the root then releases the floor low_threshold instead of about N. Only the general bound is evaluated for such tables.
+        if nrows_out != 0 and not (N - 1 - B <= nrows_out <= N + B) and nrows_out > lc.low_threshold:
+            ctx.oracle_fail(f"{nrows_out} synthetic rows for N={N} input rows (fewer entities than the flattening needs; floor {lc.low_threshold})", case, "bound")
+        return
     if nrows_out == 0:
         if N >= lc.low_threshold + (lc.low_mean_gap + 8.5) * lc.layer_sd:
             ctx.oracle_fail(f"empty synthetic table for N={N} >= low_threshold+(gap+8.5)*sd = {lc.low_threshold + (lc.low_mean_gap + 8.5) * lc.layer_sd}", case, "empty")
